@@ -52,16 +52,25 @@ def dyn_targets(fx, t):
         return [s["def"] for s in ent["sources"] if s.get("def") in fx.fns] if ent else []
     if not (st.startswith("dyn ") and tr):
         return []
+    method = (t.get("callee") or "").split("::")[-1]
+
+    def target_of(s):
+        """a closure erased into the trait object: its body; a named type (`struct Mailbox<A>` implementing `Target<M>`): its
+        implementation of the very method that is called"""
+        if s.get("def") and s["def"] in fx.fns:
+            return [s["def"]]
+        if s.get("kind") == "adt" and s.get("def"):
+            return [g["def"] for g in fx.d["fns"] if g.get("impl_trait_def") == tr and (g.get("impl_self") or "").split("<")[0] == s["def"] and g["def"].endswith("::" + method) and g["kind"] == "assoc_fn"]
+        return []
     if st in fx.dyn:
         # the very dyn type of the receiver (generic arguments included: `dyn SubmitFn<M, SendFuture>` and
         # `dyn SubmitFn<M, Result<()>>` are different tables)
-        return [s["def"] for s in fx.dyn[st]["sources"] if s.get("def") and s["def"] in fx.fns]
+        return [d_ for s in fx.dyn[st]["sources"] for d_ in target_of(s)]
     out = []
     for key, ent in fx.dyn.items():
         if key.startswith("dyn " + tr + "<") or key == "dyn " + tr:
             for s in ent["sources"]:
-                if s.get("def") and s["def"] in fx.fns:
-                    out.append(s["def"])
+                out.extend(target_of(s))
     return out
 
 
